@@ -16,7 +16,8 @@
  *   w <len>                 handler.write of a new line                      -> <ret> <offset> | closed
  *   close                   handler.destroy                                  -> ok
  *   ls                      every file: tag[id:len ...]                      -> ls ...
- *   view                    app.log.k / ... / app.log.1 / app.log            -> k=<k> : ...
+ *   view [k]                app.log.k / ... / app.log.1 / app.log            -> k=<k> : ...
+ *                           (k defaults to max(backup_count,1) of the last rinit)
  *   tz <minutes east>, clock <sec>                                           -> ok
  *   tinit <s|m|h|d> <mod> <local> [rel]  muggle_log_file_time_rot_handler_init -> ok <stamp>
  *   tw <ts> <len>           handler.write, msg.ts.tv_sec = ts                -> <ret> <period of the file the line landed in>
@@ -350,6 +351,7 @@ static void vh_op(int argc, char **argv)
 	}
 	if (strcmp(op, "view") == 0) {
 		unsigned k = g_bc > 1 ? g_bc : 1;
+		if (argc >= 2) k = (unsigned)vh_ull(argv[1]);
 		printf("k=%u : ", k);
 		char tag[32];
 		for (unsigned i = k; i >= 1; i--) {
